@@ -776,6 +776,278 @@ class Z6MultiVectors(_ImplOps, Stream):
 # }}}
 
 
+
+# {{{ T-gen tie: the table interpreter on the regenerated function table vs the real functions
+
+def tv(x):
+    """wire form of a Python value of the real code (type-faithful: int vs Fraction)"""
+    from pymbolic.geometric_algebra import MultiVector, Space
+    if x is None:
+        return "none"
+    if x is NotImplemented:
+        return "notimpl"
+    if isinstance(x, (bool, np.bool_)):
+        return f"(bool {'true' if x else 'false'})"
+    if isinstance(x, (int, np.integer)):
+        return f"(int {int(x)})"
+    if isinstance(x, Fraction):
+        return f"(coef {x})"
+    if isinstance(x, str):
+        return f"(str {dumps(x)})"
+    if isinstance(x, MultiVector):
+        return "(mv" + "".join(f" ({k} {Fraction(v)})" for k, v in x.data.items()) + ")"
+    if isinstance(x, Space):
+        return "space"
+    if isinstance(x, np.ndarray):
+        return "(vec" + "".join(f" {Fraction(v)}" for v in x) + ")"
+    if isinstance(x, dict):
+        if x and all(isinstance(k, tuple) for k in x):
+            return "(tdict" + "".join(f" (({' '.join(map(str, k))}) {Fraction(v)})"
+                                      for k, v in x.items()) + ")"
+        return "(dict" + "".join(f" ({k} {Fraction(v)})" for k, v in x.items()) + ")"
+    if isinstance(x, list):
+        return "(list" + "".join(" " + tv(y) for y in x) + ")"
+    if isinstance(x, tuple):
+        return "(tuple" + "".join(" " + tv(y) for y in x) + ")"
+    if isinstance(x, type):
+        return f"(cls {dumps(x.__name__)})"
+    raise TypeError(f"no wire form for {x!r}")
+
+
+def tval(j, sp):
+    """a JSON payload value -> the Python object handed to the real function"""
+    from pymbolic import geometric_algebra as ga
+    k = j[0]
+    if k == "none":
+        return None
+    if k == "int":
+        return int(j[1])
+    if k == "coef":
+        return Fraction(j[1])
+    if k == "str":
+        return j[1]
+    if k == "space":
+        return sp
+    if k == "mv":
+        return ga.MultiVector({int(b): Fraction(c) for b, c in j[1]}, sp)
+    if k == "dict":
+        return {int(b): Fraction(c) for b, c in j[1]}
+    if k == "tdict":
+        return {tuple(b): Fraction(c) for b, c in j[1]}
+    if k == "vec":
+        a = np.empty(len(j[1]), dtype=object)
+        for i, c in enumerate(j[1]):
+            a[i] = Fraction(c)
+        return a
+    if k == "list":
+        return [tval(y, sp) for y in j[1]]
+    if k == "tuple":
+        return tuple(tval(y, sp) for y in j[1])
+    if k == "cls":
+        return getattr(ga, j[1])
+    raise ValueError(j)
+
+
+def tsx(j):
+    """a JSON payload value -> the driver's wire form"""
+    k = j[0]
+    if k in ("none", "space"):
+        return k
+    if k in ("int", "coef"):
+        return f"({k} {j[1]})"
+    if k == "str":
+        return f"(str {dumps(j[1])})"
+    if k in ("mv", "dict"):
+        return f"({k}" + "".join(f" ({b} {c})" for b, c in j[1]) + ")"
+    if k == "tdict":
+        return "(tdict" + "".join(f" (({' '.join(map(str, b))}) {c})" for b, c in j[1]) + ")"
+    if k == "vec":
+        return "(vec" + "".join(f" {c}" for c in j[1]) + ")"
+    if k in ("list", "tuple"):
+        return f"({k}" + "".join(" " + tsx(y) for y in j[1]) + ")"
+    if k == "cls":
+        return f"(cls {dumps(j[1])})"
+    raise ValueError(j)
+
+
+PRODUCT_CLASSES = ["_OuterProduct", "_GeometricProduct", "_InnerProduct", "_LeftContractionProduct",
+                   "_RightContractionProduct", "_ScalarProduct"]
+BINARY_METHODS = ["__add__", "__radd__", "__sub__", "__rsub__", "__mul__", "__rmul__", "__xor__",
+                  "__rxor__", "__or__", "__ror__", "__lshift__", "__rlshift__", "__rshift__",
+                  "__rrshift__", "scalar_product", "__truediv__", "__rtruediv__", "__eq__", "__ne__"]
+UNARY_METHODS = ["__neg__", "rev", "invol", "dual", "__inv__", "norm_squared", "inv", "I", "__bool__",
+                 "get_pure_grade", "as_scalar", "odd", "even"]
+
+
+class TableRun(Stream):
+    """every translated function of pymbolic/geometric_algebra/__init__.py: the table interpreter
+    (`c18Call`) run by the compiled driver on the function table REGENERATED from the working tree
+    vs the real function on the same arguments (Fraction coefficients; results type-faithful: a
+    Python int and a Fraction are different answers).  This ties the reader
+    extract/geometric_algebra.py and the meaning of the table language to the code."""
+    name = "table-run"
+
+    def cases(self, rng, tier):  # noqa: C901
+        mult = 1 if tier == "quick" else 12
+
+        def ctx(dims, orth=True):
+            return {"dims": dims, "metric": [rng.choice(QMETRIC_VALUES) for _ in range(dims)],
+                    "orth": orth, "euclid": False}
+
+        def mvj(dims, maxterms=4):
+            return ["mv", [[int(k), v] for k, v in rand_fmv(rng, dims, maxterms).items()]]
+
+        def case(c, fn, args, kw=None):
+            return {**c, "fn": fn, "args": args, "kw": kw or {}}
+        for i in range(48):
+            yield case(ctx(0), "bit_count", [["int", i]])
+        for a in range(16):
+            for b in range(16):
+                yield case(ctx(0), "canonical_reordering_sign", [["int", a], ["int", b]])
+        for n in range(0, 5):
+            for p in itertools.permutations(range(n)):
+                yield case(ctx(0), "permutation_sign", [["list", [["int", x] for x in p]]])
+        yield case(ctx(0), "permutation_sign", [["list", [["int", 1], ["int", 0], ["int", 3]]]])
+        for n in range(0, 4):
+            for p in itertools.permutations(range(4), n):
+                yield case(ctx(4), "Space.bits_and_sign", [["space"], ["tuple", [["int", x] for x in p]]])
+        for dims in range(0, 5):
+            for bits in range(2 ** dims):
+                c = ctx(dims)
+                yield case(c, "_shared_metric_coeff", [["int", bits], ["space"]])
+                yield case(c, "Space.blade_bits_to_str", [["space"], ["int", bits]])
+        yield case(ctx(3), "Space.blade_bits_to_str", [["space"], ["int", 5]],
+                   {"outer_operator": ["str", "*"]})
+        for dims in (0, 1, 2, 3):
+            for orth in (True, False) if dims >= 2 else (True,):
+                c = ctx(dims, orth)
+                for cls in PRODUCT_CLASSES:
+                    for which in ("generic", "orthogonal"):
+                        for a in range(2 ** dims):
+                            for b in range(2 ** dims):
+                                yield case(c, f"{cls}.{which}_blade_product_weight",
+                                           [["int", a], ["int", b], ["space"]])
+        for _ in range(60 * mult):
+            dims = rng.randint(0, 4)
+            c = ctx(dims, orth=(dims < 2 or rng.random() < 0.85))
+            a, b = mvj(dims), mvj(dims)
+            scal = ["coef", str(rand_frac(rng))]
+            other = rng.choice([b, b, b, scal])
+            for m in BINARY_METHODS:
+                # the reflected products wrap `other` (never a MultiVector when Python calls them)
+                wraps = m in ("__rmul__", "__rxor__", "__ror__", "__rlshift__", "__rrshift__",
+                              "__rtruediv__")
+                yield case(c, f"MultiVector.{m}", [a, scal if wraps else other])
+            for m in UNARY_METHODS:
+                yield case(c, f"MultiVector.{m}", [a])
+            yield case(c, "MultiVector._generic_product", [a, b, ["cls", rng.choice(PRODUCT_CLASSES)]])
+            yield case(c, "MultiVector.project", [a, ["int", rng.randint(0, dims + 1)]])
+            yield case(c, "MultiVector.__pow__", [a, ["int", rng.choice([-1, 0, 1, 2, 3, 5])]])
+            yield case(c, "_cast_or_ni", [rng.choice([a, scal]), ["space"]])
+            # inverses that return: a basis blade, a vector
+            blade = ["mv", [[rng.randrange(2 ** dims), str(rand_frac(rng, zero_ok=False))]]]
+            yield case(c, "MultiVector.inv", [blade])
+            yield case(c, "MultiVector.__truediv__", [a, blade])
+            if dims:
+                vec = ["mv", [[int(k), v] for k, v in rand_vector(rng, dims).items()]]
+                yield case(c, "MultiVector.inv", [vec])
+                yield case(c, "MultiVector.__rtruediv__", [vec, scal])
+        # the constructor: scalars (zero included), bitmap dicts, index-tuple dicts, numpy vectors
+        for _ in range(60 * mult):
+            dims = rng.randint(0, 4)
+            c = ctx(dims)
+            kind = rng.randrange(5)
+            if kind == 0:
+                data = ["coef", str(rand_frac(rng))]
+            elif kind == 1:
+                data = ["dict", [[int(k), v] for k, v in rand_fmv(rng, dims).items()]]
+            elif kind == 2 and dims:
+                ents = []
+                for _ in range(rng.randint(0, 4)):
+                    key = rng.sample(range(dims), rng.randint(0, dims))
+                    if key not in [e[0] for e in ents]:
+                        ents.append([key, str(rand_frac(rng))])
+                data = ["tdict", ents] if ents else ["dict", []]
+            elif kind == 3:
+                data = ["vec", [str(rand_frac(rng)) for _ in range(dims)]]
+            else:
+                data = ["dict", []]
+            yield case(c, "MultiVector.__init__", [data, ["space"]])
+        for dims in range(0, 4):
+            # MultiVector(numpy vector) without a space: the canonical Euclidean space
+            c = {"dims": dims, "metric": ["1"] * dims, "orth": True, "euclid": True}
+            yield case(c, "MultiVector.__init__", [["vec", [str(rand_frac(rng)) for _ in range(dims)]]])
+            yield case(c, "MultiVector.__init__", [["vec", ["1"] * (dims + 1)], ["space"]])
+
+    def _space(self, pl):
+        from pymbolic import geometric_algebra as ga
+        dims = pl["dims"]
+        if pl["euclid"]:
+            return ga.get_euclidean_space(dims)
+        mm = np.zeros((dims, dims), dtype=object)
+        for i, g in enumerate(pl["metric"]):
+            mm[i, i] = Fraction(g)
+        if not pl["orth"]:
+            mm[0, 1] = mm[1, 0] = Fraction(1, 2)
+        return ga.Space(dims, mm)
+
+    def request(self, pl):
+        m = "(" + " ".join(pl["metric"]) + ")"
+        args = [tsx(a) for a in pl["args"]]
+        if pl["fn"].endswith(".__init__"):
+            args = ["newobj"] + args
+        kws = " ".join(f"({dumps(k)} {tsx(v)})" for k, v in pl["kw"].items())
+        low = lambda v: "true" if v else "false"  # noqa: E731
+        return (f"(c18-table {dumps(pl['fn'])} {m} {pl['dims']} {low(pl['orth'])} {low(pl['euclid'])} "
+                f"({' '.join(args)}) ({kws}))")
+
+    def run_impl(self, pl):
+        from pymbolic import geometric_algebra as ga
+        sp = self._space(pl)
+        args = [tval(a, sp) for a in pl["args"]]
+        kw = {k: tval(v, sp) for k, v in pl["kw"].items()}
+        obj = ga
+        for part in pl["fn"].split("."):
+            obj = obj.__dict__[part] if isinstance(obj, type) else getattr(obj, part)
+        if isinstance(obj, property):
+            obj = obj.fget
+        if isinstance(obj, staticmethod):
+            obj = obj.__func__
+        try:
+            if pl["fn"] == "MultiVector.__init__":
+                r = ga.MultiVector(*args, **kw)
+            else:
+                r = obj(*args, **kw)
+        except (ZeroDivisionError, NotImplementedError, ValueError, IndexError, KeyError, TypeError,
+                RuntimeError, AttributeError) as e:
+            return f"(raise {type(e).__name__})"
+        return f"(ok {tv(r)})"
+
+    def agree(self, model, impl, pl):
+        if model == impl:
+            return "ok"
+        if pl["fn"].split(".")[-1] in ("__add__", "__radd__", "__sub__", "__rsub__"):
+            # the sum iterates a Python set: compare the dictionaries as mappings
+            from ..sexp import loads
+            m, i = loads(model), loads(impl)
+            if m[0] == i[0] == "ok" and m[1][0] == i[1][0] == "mv" \
+                    and sorted(map(tuple, m[1][1:])) == sorted(map(tuple, i[1][1:])):
+                return "ok"
+        return "diff"
+
+    def nontrivial_key(self, pl, model, impl):
+        return dumps([pl["fn"], pl["dims"], pl["metric"], pl["orth"], str(pl["args"]), str(pl["kw"])])
+
+    def stats(self, pl, mo, io, acc):
+        acc.setdefault("functions", set()).add(pl["fn"]) if False else None
+        fs = acc.setdefault("by_function", {})
+        fs[pl["fn"]] = fs.get(pl["fn"], 0) + 1
+        if io.startswith("(raise"):
+            acc["raised"] = acc.get("raised", 0) + 1
+
+# }}}
+
+
 class Perms(Stream):
     name = "permutation-signs"
 
@@ -836,14 +1108,28 @@ def probes():
     return res
 
 
+def extract(ctx=None):
+    """T-gen: regenerate lean/PV/Generated/GATable.lean (the translated functions, classes and
+    pinned definitions of pymbolic/geometric_algebra/__init__.py) from the tree under test"""
+    from extract.geometric_algebra import extract_geometric_algebra
+    return extract_geometric_algebra(ctx)
+
+
 PROP = Prop(
     id="C18",
     title="Multivectors obey the axioms of geometric (Clifford) algebra",
-    lean_targets=["PV.Properties.C18"],
+    lean_targets=["PV.Properties.C18", "PV.Properties.C18Table"],
     theorems=[],
-    streams=[BladePairs(), MultiVectors(), FractionMultiVectors(), Z6MultiVectors(), Perms()],
+    extractors=[extract],
+    streams=[BladePairs(), MultiVectors(), FractionMultiVectors(), Z6MultiVectors(), Perms(),
+             TableRun()],
     probes=[probes],
     trusted_base=["Lean 4.33 kernel; axioms propext, Classical.choice, Quot.sound only",
+                  "extract/geometric_algebra.py (ast reader of pymbolic/geometric_algebra/__init__.py; "
+                  "unknown shapes are errors) and the meaning of the table language "
+                  "(PV/Model/GATable.lean: builtins, int/coefficient arithmetic, Space attributes) — "
+                  "tied by the table-run stream: compiled interpreter on the regenerated table vs the "
+                  "real functions",
                   "harness/props/c18.py (line protocol, list-based blade multiplication oracle)",
                   "the multivector model is generic in the coefficient type and proved for every "
                   "commutative ring; the driver runs its Int, Rat (= Fraction) and Fin 6 (= Z/6) "
